@@ -179,12 +179,20 @@ theorem dispatch_cases (c : SiteCfg) (st : StatFn) (sel : Str) :
           simp only [hu', hs, Bool.false_eq_true, if_false, Bool.not_true]
           split <;> simp
         | file d =>
-          right; right; right
-          refine ⟨d, rfl, ?_⟩
-          simp only [hu', hs, Bool.false_eq_true, if_false, Bool.not_true]
-          split
-          · simp
-          · split <;> simp
+          by_cases hcf : isSuffixB (47 :: c.cachefile) sel = true
+          · by_cases hg : (c.gophermap && endsWithGophermap sel) = true
+            · right; right; right
+              exact ⟨d, rfl, Or.inl (by simp [hu', hs, hg])⟩
+            · right; left
+              have hg' : (c.gophermap && endsWithGophermap sel) = false := by simpa using hg
+              simp [hu', hs, hg', hcf]
+          · right; right; right
+            refine ⟨d, rfl, ?_⟩
+            have hcf' : isSuffixB (47 :: c.cachefile) sel = false := by simpa using hcf
+            simp only [hu', hs, Bool.false_eq_true, if_false, Bool.not_true, hcf']
+            split
+            · simp
+            · split <;> simp
     · have hs' : secureB c.forbidden sel = false := by simpa using hs
       have hu' : (c.url && urlSecureB c.urlForbidden sel) = false := by simpa using hu
       simp [hu', hs']
